@@ -72,7 +72,7 @@ static Outcome runCase(const KV& c)
                 return o;
             }
             // known finding F16 (slow convergence on a specific family of configurations) is excluded by construction
-            const bool f16 = cfg.geometry == 1 && cfg.alpha == 2 && cfg.dirbc == 1 && cfg.aniso >= 1 && cfg.R0 >= 0.05 * cfg.Rmax;
+            const bool f16 = cfg.geometry == 1 && cfg.alpha >= 2 && cfg.dirbc == 1 && cfg.aniso >= 1 && cfg.R0 >= 0.05 * cfg.Rmax;
             if (const char* lg = getenv("VERIF_C01_LOG_SLOW")) {
                 FILE* f = fopen(lg, "a");
                 if (f) {
